@@ -32,7 +32,7 @@ func c01Alphabet(thorough bool) []string {
 	for _, o := range c01XOps[:n2] {
 		a = append(a, "X2:"+o)
 	}
-	a = append(a, "L:subscribe", "L:close")
+	a = append(a, "L:subscribe", "L:close", "L:verify-begin", "L:verify-end")
 	return a
 }
 
@@ -41,6 +41,8 @@ type c01Conn struct {
 	dead     bool
 	verified bool
 	last     *refctl.Verify
+	pending  *refctl.Verify // L: a finish request whose head was sent and whose handler waits for the body
+	pendBody []byte
 }
 
 type c01Run struct {
@@ -113,7 +115,46 @@ func (r *c01Run) step(ev string) bool {
 		return m, evs, err
 	}
 	if who == "L" {
+		if cn.pending != nil && op != "verify-end" {
+			return r.after(ev) // L is in the middle of a request: its other events are not enabled
+		}
 		switch op {
+		case "verify-begin":
+			// pair-verify whose finish request is split: the handler runs and waits for the body while later
+			// events happen on other connections
+			if cn.verified {
+				return r.after(ev)
+			}
+			v := refctl.NewVerify(refctl.Seed32(fmt.Sprintf("Lsplit:%d", r.seq)))
+			m, _, err := do("POST", "/pair-verify", refctl.CTPairing, refctl.VerifyM1(v.EphPub))
+			if err != nil || m.Status != 200 || v.ParseM2(m.Body, r.b.AccLTPK) != nil {
+				r.fail("legit-verify-failed", fmt.Sprintf("the legitimate controller's start request fails: %v %v", m, err))
+				return false
+			}
+			body := v.M3(idL)
+			if err := cn.k.BeginRequest("POST", "/pair-verify", refctl.CTPairing, len(body)); err != nil {
+				r.fail("legit-verify-failed", "the split finish request is not accepted: "+err.Error())
+				return false
+			}
+			cn.pending, cn.pendBody = v, body
+		case "verify-end":
+			if cn.pending == nil {
+				return r.after(ev)
+			}
+			m, _, err := cn.k.FinishRequest(cn.pendBody)
+			v := cn.pending
+			cn.pending = nil
+			if err != nil || m.Status != 200 {
+				r.fail("legit-verify-failed", fmt.Sprintf("the legitimate controller's (split) finish request fails: %v %v", m, err))
+				return false
+			}
+			if ec, perr := refctl.ParseVerifyM4(m.Body); perr != nil || ec != 0 {
+				r.fail("legit-verify-failed", fmt.Sprintf("the legitimate controller's genuine finish is rejected: code %d %v", ec, perr))
+				return false
+			}
+			a2c, c2a := refctl.SessionKeys(v.Shared)
+			cn.k.Secure(a2c, c2a)
+			cn.verified = true
 		case "verify":
 			if cn.verified {
 				return r.after(ev)
@@ -314,7 +355,48 @@ func c01Exec(c *fw.Ctx, hist []string) bool {
 			break
 		}
 	}
+	if !failed {
+		r.finalProbes()
+	}
 	return !failed
+}
+
+// finalProbes: at the end of every history the legitimate controller, if verified, is still served; every
+// live adversary connection still answers (and refuses) in plaintext and does not serve ciphertext under
+// keys it derived itself — verification carries over to nobody.
+func (r *c01Run) finalProbes() {
+	if l := r.conns["L"]; l != nil && !l.dead && l.verified && l.pending == nil {
+		m, _, err := l.k.Do("GET", "/accessories", "", nil)
+		if err != nil || m.Status != 200 {
+			r.fail("legit-request-failed/final", fmt.Sprintf("the verified legitimate controller is no longer served: %v", err))
+			return
+		}
+	}
+	for _, name := range []string{"X1", "X2"} {
+		cn := r.conns[name]
+		if cn == nil || cn.dead {
+			continue
+		}
+		m, evs, err := cn.k.Do("GET", "/accessories", "", nil)
+		if err != nil {
+			r.fail("unverified-connection-left-plaintext", fmt.Sprintf("adversary connection %s, never verified, no longer answers plaintext requests (%v): its session was switched", name, err))
+			return
+		}
+		if !r.refused(name, "final-get", m, evs, nil) {
+			return
+		}
+		shared := refctl.Seed32("guess")
+		if cn.last != nil {
+			shared = cn.last.Shared
+		}
+		a2c, c2a := refctl.SessionKeys(shared)
+		pr := cn.k.ProbeEncrypted(a2c, c2a, refctl.BuildRequest("GET", "/accessories", "", nil))
+		cn.dead = true
+		if pr.Decrypted != nil {
+			r.fail("served-ciphertext-under-own-keys", fmt.Sprintf("connection %s never verified but a request sealed under keys it derived itself was answered (status %d)", name, pr.Decrypted.Status))
+			return
+		}
+	}
 }
 
 func c01Run1(c *fw.Ctx) {
@@ -345,7 +427,7 @@ func init() {
 	fw.Register(&fw.Check{
 		ID:    "C01",
 		Level: "model_checking",
-		Rule:  "every history of length 3 (quick, 24 symbols) / 4 (thorough, 33 symbols) over: two adversary connections X1, X2 (plaintext GET /accessories, GET /characteristics, PUT value, PUT ev, POST /resource, POST /pairings add / remove, pair-verify start, forged and zero-key finish, pair-setup start and wrong-code verify, a request sealed under keys derived from its own exchange, reopen), a legitimate controller L (verify, changing write, subscribe, close) and the application (set value), against the real transport (with /resource registered) over TCP, fresh system per history. After EVERY event: each protected operation on a connection the model holds as unverified is refused (status not 2xx, body discloses no attribute, value or canary — checked as plaintext and after decryption under every key the adversary holds), no EVENT precedes a barrier request on any adversary connection, characteristic values / every application callback counter / stored pairings are exactly what the model says. states = histories executed (each judges all its prefixes)",
+		Rule:  "every history of length 3 (quick, 26 symbols) / 4 (thorough, 35 symbols) over: two adversary connections X1, X2 (plaintext GET /accessories, GET /characteristics, PUT value, PUT ev, POST /resource, POST /pairings add / remove, pair-verify start, forged and zero-key finish, pair-setup start and wrong-code verify, a request sealed under keys derived from its own exchange, reopen), a legitimate controller L (verify, changing write, subscribe, close, and a pair-verify whose finish request is split with Expect: 100-continue so that its handler overlaps with the events that follow) and the application (set value), against the real transport (with /resource registered) over TCP, fresh system per history. After EVERY event: each protected operation on a connection the model holds as unverified is refused (status not 2xx, body discloses no attribute, value or canary — checked as plaintext and after decryption under every key the adversary holds), no EVENT precedes a barrier request on any adversary connection, characteristic values / every application callback counter / stored pairings are exactly what the model says; at the end of every history L (if verified) must still be served and every live adversary connection must still answer in plaintext, refuse, and not serve ciphertext under its own exchange keys. states = histories executed (each judges all its prefixes)",
 		Run:   c01Run1,
 		Replay: func(c *fw.Ctx, raw json.RawMessage) {
 			var cas c01Case
